@@ -334,6 +334,32 @@ let run_compile tk =
   pr " ";
   print_program r.Compile.cr_prog
 
+(* ---- reference semantics ---- *)
+let print_rviews (vs : RefSem.rviews) =
+  L.iter (fun (name, vars) ->
+    pr "%s{" (hexs name);
+    let vars = L.sort compare (L.map (fun (n, v) -> (string_of_str n, int_of_z v)) vars) in
+    L.iter (fun (n, v) -> pr "%s=%d," (hex n) v) vars;
+    pr "};") vs
+
+let run_refrun tk =
+  let fuel = num tk in
+  let (main, files) = read_files tk in
+  let r = get (Compile.parse files main) in
+  if not r.Compile.pr_ok then pr "REJECTED_BY_PARSER"
+  else match RefSem.abstract_source r.Compile.pr_root with
+  | None -> pr "NOSOURCE"
+  | Some rs ->
+      pr "routines=%d " (L.length rs);
+      let print_trace tr =
+        pr " trace=%d" (L.length tr);
+        L.iter (fun ((f, l), vs) -> pr " %s:%d@" (hexs f) (int_of_z l); print_rviews vs) tr in
+      (match RefSem.run_ref (nat_of_int fuel) rs with
+       | RefSem.OStop (vs, steps, tr) -> pr "STOP steps=%d views=" (int_of_nat steps); print_rviews vs; print_trace tr
+       | RefSem.ODone (_, steps, tr) -> pr "DONE steps=%d" (int_of_nat steps); print_trace tr
+       | RefSem.OFuel -> pr "REFFUEL"
+       | RefSem.OBad -> pr "REFBAD")
+
 (* ---- LR generator ---- *)
 let read_sym (w : string) : Grammar.sym =
   if w = "e" then Grammar.Eps
@@ -404,7 +430,7 @@ let run_lr tk =
   for _ = 1 to j do
     let n = num tk in
     let input = times n (fun () -> num tk) in
-    match LR.parse (fun t -> n_of_int t) (fun t -> "t" ^ string_of_int t) sem tab (nat_of_int 100000) input with
+    match LR.parse (fun t -> n_of_int t) (fun t -> "t" ^ string_of_int t) sem tab (nat_of_int 4000) input with
     | Base.Ok (Some v) -> pr " A%s" (hex v)
     | Base.Ok None -> pr " R"
     | Base.UB k -> raise (Stop ("UB " ^ ub_name k))
@@ -421,6 +447,7 @@ let run_case tk =
   | "extract" -> run_extract tk
   | "parse" -> run_parse tk
   | "compile" -> run_compile tk
+  | "refrun" -> run_refrun tk
   | "apply" -> run_apply tk
   | "first" -> run_first tk
   | "lr" -> run_lr tk
